@@ -17,6 +17,7 @@ pub mod c16;
 pub mod c17;
 pub mod c18;
 pub mod c19;
+pub mod c20;
 
 pub fn dispatch(engine: &str, sh: &mut Shard) -> bool {
     match engine {
@@ -37,6 +38,7 @@ pub fn dispatch(engine: &str, sh: &mut Shard) -> bool {
         "c17" => c17::run(sh),
         "c18" => c18::run(sh),
         "c19" => c19::run(sh),
+        "c20" => c20::run(sh),
         _ => return false,
     }
     true
